@@ -438,20 +438,59 @@ def check_format_literals(chk, prog, eff, roots, rulename='C06.format-literal'):
         if x.get('kind') == 'PredefinedExpr':
             return True
         return False
+    def own_param(fdecl, x):
+        """index of the function's own parameter that x names, or None"""
+        x = _strip(x)
+        if x.get('kind') != 'DeclRefExpr' or x.get('referencedDecl', {}).get('kind') != 'ParmVarDecl':
+            return None
+        params = [p_ for p_ in fdecl.get('inner', ()) if isinstance(p_, dict) and p_.get('kind') == 'ParmVarDecl']
+        for i_, p_ in enumerate(params):
+            if p_.get('id') == x['referencedDecl'].get('id'):
+                return i_
+        return None
+    # format wrappers: a function that hands its own parameter to a printf-family call (or to another wrapper) as the format; the
+    # obligation "literal format" then lies on its callers, at that parameter
+    wrappers = {}
+    changed = True
+    while changed:
+        changed = False
+        for k in seen:
+            info = eff.funcs.get(k)
+            if info is None or k in wrappers:
+                continue
+            for tgt, node in info['callsites']:
+                pos = FMT_POS.get(tgt[1]) if tgt not in wrappers else wrappers[tgt]
+                if tgt in eff.funcs and tgt not in wrappers:
+                    pos = None
+                if pos is None or len(node.get('inner', ())) <= pos + 1:
+                    continue
+                j = own_param(info['decl'], node['inner'][pos + 1])
+                if j is not None:
+                    wrappers[k] = j
+                    changed = True
+                    break
     for k in sorted(seen, key=repr):
         info = eff.funcs.get(k)
         if info is None:
             continue
         for tgt, node in info['callsites']:
-            pos = FMT_POS.get(tgt[1])
+            if tgt in wrappers:
+                pos = wrappers[tgt]
+            elif tgt in eff.funcs:
+                continue
+            else:
+                pos = FMT_POS.get(tgt[1])
             if pos is None or len(node.get('inner', ())) <= pos + 1:
                 continue
             n += 1
+            if k in wrappers and own_param(info['decl'], node['inner'][pos + 1]) == wrappers[k]:
+                continue        # the wrapper forwarding its format parameter: checked at its callers
             if not literal(node['inner'][pos + 1]):
                 bad += 1
                 chk.add(Finding(rulename, info['decl'].get('_f'), k[1], 'format-not-literal[%s]' % tgt[1],
                                 '%s() in %s (%s) is given a format that is not a string literal: text that may contain bytes of the token is '
                                 'interpreted as a format' % (tgt[1], k[1], eff.chain(parent, k)), line=node.get('_l')))
+    chk.coverage['format_wrappers'] = sorted('%s(arg %d)' % (k[1], j) for k, j in wrappers.items())
     chk.rule(rulename, 'every printf-family call reachable from the entry point has a string-literal format', n, bad, floor=10)
 
 
